@@ -4,7 +4,7 @@ from .. import lean, proto, gen, util
 
 REQUIRED = ['Petl.C05.' + n for n in (
     'sort_buffersize_irrelevant sort_any_two_buffersizes sortRows_stable_sort sortRows_perm sort_ascending '
-    'sort_descending stable_sort_unique mergesort_eq_sort_cat mergesort_presorted sort_of_sorted').split()]
+    'sort_descending stable_sort_unique mergesort_eq_sort_cat mergesort_differing_fields_eq_sort_cat cat_rows mergesort_presorted sort_of_sorted').split()]
 
 
 def pyref_sort(etl, tbl, key, reverse):
@@ -164,7 +164,11 @@ def run(ctx):
                 except proto.Unencodable:
                     mmetas.pop()
             else:
-                mlines.append(None)
+                try:
+                    mlines.append('mergesortH %s %s %s %s %s' % (util.enc_key(key), proto.enc_bool(reverse), proto.enc_opt(bs), proto.enc(missing),
+                                                                proto.enc_list(tables, proto.enc_table)))
+                except proto.Unencodable:
+                    mlines.append(None)
         mmodel = lean.run_driver([l for l in mlines if l is not None])
         it = iter(mmodel)
         for (tables, key, reverse, bs, same, missing), line in zip(mmetas, mlines):
